@@ -115,3 +115,37 @@ Theorem C01_tie_sound :
     check_alg D k N bl msk cb El tb sols alg = true -> sem_holds_upto D k N bl msk cb El tb sols alg.
 Proof. exact check_alg_sound. Qed.
 Print Assumptions C01_tie_sound.
+
+(** End-to-end form of the tie (Alg/Trunc.v, TruncMain.v, TruncTie.v): the truncation of a
+    [BlockAlg] at order N+1 is again a [BlockAlg]; a valuation passing [check_alg] is a solution of
+    [main_alg] there; hence the conclusions of C01 (and C02, C03) hold for the implementation's
+    tables themselves up to total order N.  Both hypotheses are booleans evaluated by vm_compute
+    in the correspondence check k_semeq for every loaded case: [check_alg] (every equation of the
+    semantics) and [inputs_ok] (mask reflexive on the D basis states and euclidean, eliminated
+    pairs have distinct real energies, the loaded H is Hermitian with order-zero part diag(E)). *)
+From PV.Alg Require Import TruncTie.
+Theorem C01_tie_conclusions :
+  forall (D k N : nat) (bl : list nat) (msk : list (list bool)) (cb : list bool) (El : list gq)
+         (sols : list (string * tser gq)),
+    check_alg D k N bl msk cb El false sols main_alg = true ->
+    inputs_ok D k N bl msk cb El sols = true ->
+    let BA := BAi D k bl msk cb in
+    let sol := asol D k sols in
+    eqN D k N (Sel (sol "U†" * sol "H" * sol "U")) (sol "H_tilde") /\
+    eqN D k N (Rp (sol "U†" * sol "H" * sol "U")) 0 /\
+    eqN D k N (sol "U†" * sol "U") 1 /\
+    eqN D k N (sol "U" * sol "U†") 1 /\
+    eqN D k N (adj (sol "U")) (sol "U†") /\
+    eqN D k N (adj (sol "H_tilde")) (sol "H_tilde") /\
+    eqN D k N (Sel (half ((sol "U" - 1) - adj (sol "U" - 1)))) 0.
+Proof. intros. eapply tie_conclusions; eassumption. Qed.
+Print Assumptions C01_tie_conclusions.
+
+Import ListNotations.
+Require Import QArith.
+Example C01_tie_conclusions_applies :
+  check_alg 4 2 2 [0;1;1;2]%nat [[true;false;false;false];[false;true;true;false];[false;true;true;false];[false;false;false;true]]
+            [true;true;true] [((0#1),(0#1));((2#1),(0#1));((2#1),(0#1));((5#1),(0#1))]%Q false main_wit_sols main_alg = true /\
+  inputs_ok 4 2 2 [0;1;1;2]%nat [[true;false;false;false];[false;true;true;false];[false;true;true;false];[false;false;false;true]]
+            [true;true;true] [((0#1),(0#1));((2#1),(0#1));((2#1),(0#1));((5#1),(0#1))]%Q main_wit_sols = true.
+Proof. split; vm_compute; reflexivity. Qed.
